@@ -98,6 +98,7 @@ class H11Protocol:
             h11.SERVER, max_incomplete_event_size=self.config.h11_max_incomplete_size
         )
         self.context = context
+        self.closed = False
         self.keep_alive_requests = 0
         self.request_complete = False
         self.send = send
@@ -115,8 +116,12 @@ class H11Protocol:
             self.connection.receive_data(event.data)
             await self._handle_events()
         elif isinstance(event, Closed):
+            self.closed = True
             if self.stream is not None:
                 await self._close_stream()
+            # Release a reader waiting for the (now closed) stream to
+            # complete before it reads the next pipelined request
+            await self.can_read.set()
 
     async def stream_send(self, event: StreamEvent) -> None:
         if isinstance(event, Response):
@@ -180,6 +185,8 @@ class H11Protocol:
                     await self._check_protocol(event)
                     await self._create_stream(event)
                 elif event is h11.PAUSED:
+                    if self.closed:
+                        break  # Nothing further will be served
                     await self.can_read.clear()
                     await self.can_read.wait()
                 elif isinstance(event, h11.ConnectionClosed) or event is h11.NEED_DATA:
